@@ -1,6 +1,7 @@
 (* C18 - fragment splitting helpers respect bracket and quote nesting.
    Only theorem statements closed by `exact`, their non-vacuity examples, and Print Assumptions. *)
-From Tranp Require Import Model.Block Proofs.BlockProofs.
+From Tranp Require Import Model.Block Model.BlockParse Proofs.BlockProofs Proofs.BlockParseProofs.
+From Tranp Require Proofs.SkipGen.
 Local Open Scope nat_scope.
 
 (* _skip_other_block started on a bracket group or a quoted string consumes exactly that item,
@@ -53,6 +54,57 @@ Qed.
 Example ex_split : break_separator (flat ex_items) [","%char] = [s "f(""(, '"", p=1)"; s "<a,b>,"].
 Proof. vm_compute. reflexivity. Qed.
 
+
+(* parse_bracket (BlockParser.parse + Entry.unders): on a fragment whose groups of the parsed bracket kind form the
+   trees pre ++ PG b :: r (atoms = plain characters, quoted strings, groups of the other kinds - their content is
+   arbitrary, brackets of the parsed kind included), the result is exactly the groups of PG b, outermost first,
+   in document order; okl excludes one shape: a quoted string or other-kind group that holds the opening bracket
+   and sits, without a blank, directly in front of a group (refuted below). *)
+Theorem C18_parse_bracket_groups : forall o c pre b r, In (o, c) all_pair -> o <> c ->
+  Forall (wfp o c) (pre ++ PG b :: r) -> Forall is_atom pre -> okl o (okp o) (pre ++ [PG b]) false = true ->
+  parse_bracket (flatp o c (pre ++ PG b :: r)) o c = Some (groups1 o c (PG b)).
+Proof. exact parse_bracket_groups_tab. Qed.
+
+(* each piece is a whole group: opening bracket, the text of a tree list, closing bracket *)
+Theorem C18_parse_bracket_pieces_are_groups : forall o c p g, In g (groups1 o c p) -> exists b, g = o :: flatp o c b ++ [c].
+Proof. exact groups1_shape. Qed.
+
+(* the full statement without the okl side condition is false of the code: text.find(bracket, entry.begin) picks the
+   bracket inside the quoted string *)
+Theorem C18_parse_bracket_find_refuted :
+  parse_bracket (s "(a, m[""(""](b))") "(" ")" = Some [s "(a, m[""(""](b))"; s "(""](b)"].
+Proof. vm_compute. reflexivity. Qed.
+
+(* non-vacuity: three levels of the same bracket kind with adjacent closers, a quoted string holding the bracket
+   and a delimiter, another-kind group holding the bracket, text after the root group *)
+Definition ex_pre : list pt := [PA (Ch "f")].
+Definition ex_body : list pt :=
+  [PA (Ch "a"); PA (Ch ","); PA (Ch " "); PA (Ch "g");
+   PG [PG [PA (Q """" (s "(,")); PA (Ch " "); PA (G "[" "]" [Ch "("])]]; PA (Ch " "); PA (Ch "x")].
+Definition ex_rest : list pt := [PA (Ch "y")].
+Example ex_parse_wf : Forall (wfp "(" ")") (ex_pre ++ PG ex_body :: ex_rest).
+Proof.
+  unfold ex_pre, ex_body, ex_rest. cbn [app].
+  repeat match goal with
+  | |- Forall _ [] => constructor
+  | |- Forall _ (_ :: _) => constructor
+  | |- wfp _ _ (PG _) => constructor
+  | |- wfp _ _ (PA _) => constructor; split; [|cbn; try exact I; split; discriminate]
+  | |- SkipGen.wf_t _ (Ch _) => constructor; vm_compute; reflexivity
+  | |- SkipGen.wf_t _ (Q _ _) => constructor; [vm_compute; auto 10 | cbn; intuition discriminate]
+  | |- SkipGen.wf_t _ (G _ _ _) => constructor; [vm_compute; auto 10 | discriminate | ]
+  end.
+Qed.
+Example ex_parse_atoms : Forall is_atom ex_pre.
+Proof. repeat constructor. Qed.
+Example ex_parse_ok : okl "(" (okp "(") (ex_pre ++ [PG ex_body]) false = true.
+Proof. vm_compute. reflexivity. Qed.
+Example ex_parse_text : flatp "(" ")" (ex_pre ++ PG ex_body :: ex_rest) = s "f(a, g((""(,"" [(])) x)y".
+Proof. vm_compute. reflexivity. Qed.
+Example ex_parse_result : parse_bracket (s "f(a, g((""(,"" [(])) x)y") "(" ")"
+  = Some [s "(a, g((""(,"" [(])) x)"; s "((""(,"" [(]))"; s "(""(,"" [(])"].
+Proof. vm_compute. reflexivity. Qed.
+
 Print Assumptions C18_skip_group_exact.
 Print Assumptions C18_break_separator_spec.
 Print Assumptions C18_split_rejoin.
@@ -60,3 +112,6 @@ Print Assumptions C18_pieces_balanced.
 Print Assumptions C18_break_last_block_spec.
 Print Assumptions C18_decorator_path_args.
 Print Assumptions C18_table_ok.
+Print Assumptions C18_parse_bracket_groups.
+Print Assumptions C18_parse_bracket_pieces_are_groups.
+Print Assumptions C18_parse_bracket_find_refuted.
